@@ -192,8 +192,8 @@ Proof.
     apply IH. split; [exact Hpeers'|]. split; [rewrite length_upd_peer; exact Hlen|]. split.
     { intros j q Ej. rewrite nth_error_upd_peer in Ej. cbn [existsb].
       destruct (Nat.eqb_spec j i) as [->|Hne].
-      - rewrite Ei in Ej. inversion Ej; subst q. rewrite Hclosed, Nat.eqb_refl. reflexivity.
-      - rewrite (Hcl j q Ej). destruct (Nat.eqb_spec j i); [contradiction|reflexivity]. }
+      - rewrite Ei in Ej. inversion Ej; subst q. rewrite Hclosed. reflexivity.
+      - rewrite (Hcl j q Ej). reflexivity. }
     split; [exact Habs|]. apply Hlife_same. reflexivity.
   - (* read completely; the history gains this key *)
     assert (Hhist' : forall key', hist_last key' ((key, idx) :: hist) =
@@ -289,8 +289,8 @@ Proof.
           destruct (Hlife Hm) as (Hwf & _ & _ & Hl).
           destruct Hds as (Hd & Hp0).
           destruct (Hl tg (fid fr) (ftotal fr) i0 Ehl Hd Hp0) as (_ & Hlg). fold key in Hlg.
-          pose proof (life_present keqb keqb_spec flt key _ Hwf Hlg). rewrite Hh in Ehas.
-          rewrite H in Ehas; [discriminate|lia]. }
+          pose proof (life_present keqb keqb_spec flt key _ Hwf Hlg) as Hpr.
+          rewrite Hpr in Hh; [discriminate|lia]. }
         rewrite Hwin. cbn [andb].
         apply IH. exact Hnext.
 Qed.
